@@ -49,6 +49,15 @@ func newChannelInstance(sc *SecureChannel) *channelInstance {
 	}
 }
 
+// expired returns true if the lifetime of the security token of the instance
+// plus the 25 % for which a replaced token is still accepted has elapsed.
+func (c *channelInstance) expired(now time.Time) bool {
+	if c.revisedLifetime <= 0 {
+		return false
+	}
+	return now.After(c.createdAt.Add(c.revisedLifetime + c.revisedLifetime/4))
+}
+
 func (c *channelInstance) nextSequenceNumber() uint32 {
 	// lock must be held
 	c.sequenceNumber++
